@@ -63,10 +63,15 @@ def _plausible(r, what, sa):
                                           'spi': b'', 'data': b'\0\x13' if r.random() < 0.3 else b''}]
     if what == 'unknown_exch':
         return r.choice([33, 38, 99, 0, 255]), []
+    if what == 'critical_unknown':
+        # a payload of a type nobody knows with the critical bit set (alone, or in front of payloads a handler would act on)
+        crit = {'type': r.choice([49, 99, 200, 255]), 'data': bytes(r.getrandbits(8) for _ in range(r.choice([0, 4, 16]))), 'critical': True}
+        rest = r.choice([[], [], [{'type': R.P_DELETE, 'proto': 1, 'spi_size': 0, 'spis': []}], [nonce]])
+        return r.choice([35, 36, 37]), ([crit] + rest if r.random() < 0.7 else rest + [crit])
     return 37, []
 
 
-WHATS = ('delete_ike', 'delete_child', 'dpd', 'rekey_ike', 'new_child', 'rekey_child', 'auth', 'error', 'unknown_exch')
+WHATS = ('delete_ike', 'delete_child', 'dpd', 'rekey_ike', 'new_child', 'rekey_child', 'auth', 'error', 'unknown_exch', 'critical_unknown')
 ID_DELTAS = (-2, -1, 0, 0, 0, 1, 'zero', 'max')
 
 
